@@ -421,6 +421,11 @@ class Body:
             if d[0] == "assign":
                 rv = d[3]
                 if rv.get("agg") == "adt" and rv.get("variant"):
+                    ops = rv.get("ops") or []
+                    if len(ops) == 1:
+                        pl = ops[0].get("move") or ops[0].get("copy")
+                        if pl is not None and not pl["p"] and pl["l"] in known:
+                            return ("wrap", rv["variant"], pl["l"])      # `Ok(outcome)`: the payload's variant is carried along
                     return ("tag", rv["variant"])
                 if "use" in rv:
                     u = rv["use"]
@@ -429,8 +434,15 @@ class Body:
                     pl = u.get("move") or u.get("copy")
                     if pl is not None and not pl["p"] and pl["l"] in known:
                         return ("copy", pl["l"])
+                    if pl is not None and len(pl["p"]) == 2 and isinstance(pl["p"][0], dict) and pl["p"][0].get("dc") and isinstance(pl["p"][1], dict) \
+                            and pl["p"][1].get("f") == 0 and pl["l"] in known:
+                        return ("payload", pl["l"], pl["p"][0]["dc"])    # `(x as V).0`
             elif d[0] == "call" and d[2].fn == "core::ops::try_trait::FromResidual::from_residual":
                 return ("tag", "Err")
+            elif d[0] == "call" and d[2].fn == "core::ops::try_trait::Try::branch" and d[2].args:
+                pl = d[2].args[0].get("move") or d[2].args[0].get("copy")
+                if pl is not None and not pl["p"] and pl["l"] in known:
+                    return ("branch", pl["l"])
             return None
         # fixpoint: candidate = every definition is interpretable (given the current candidate set); seeds stay candidates anyway
         cand = set(l for l, ds in defs.items() if l != 0 and ds and len(ds) <= 12)
@@ -459,6 +471,27 @@ class Body:
         self._cv = cand | seeds
         self._cv_kind = kind
         return self._cv
+
+    def _raw_ref_var(self, operand, cv):
+        """The correlated local behind `&x` / a copy of `x` (single-definition temporaries only)."""
+        pl = operand.get("copy") or operand.get("move")
+        if pl is None or pl["p"]:
+            return None
+        l = pl["l"]
+        for _ in range(5):
+            if l in cv:
+                return l
+            ds = self.defs().get(l, [])
+            if len(ds) != 1 or ds[0][0] != "assign":
+                return None
+            rv = ds[0][3]
+            if "ref" in rv and not rv["ref"]["p"]:
+                l = rv["ref"]["l"]
+            elif "use" in rv and (rv["use"].get("copy") or rv["use"].get("move")) and not (rv["use"].get("copy") or rv["use"].get("move"))["p"]:
+                l = (rv["use"].get("copy") or rv["use"].get("move"))["l"]
+            else:
+                return None
+        return None
 
     def _raw_bool_var(self, operand, cv):
         """(var, negated?) when the switch operand is - through single-definition copies and `!` - the correlated local `var`."""
@@ -528,23 +561,14 @@ class Body:
                 continue
             cond = si["cond"]
             if si["kind"] == "bool":
-                is_fn = cond[0] == "call" and cond[2] and cond[1].fn.split("::")[-1] in self._IS_FNS and var_of(cond[2][0]) is not None
-                rv_ = self._raw_bool_var(self.blocks[bb]["term"]["d"], cv) if not is_fn and var_of(cond) is None else None
-                arms = self.blocks[bb]["term"]["arms"]
-                if rv_ is not None and len(arms) == 1 and arms[0][0] in ("0", "1"):
-                    (v, parity) = rv_
-                    lab_val = {arms[0][0]: arms[0][0] == "1", "otherwise": arms[0][0] == "0"}
-                    sw_tag[bb] = (v, {lab: {"true" if (val != parity) else "false"} for lab, val in lab_val.items()})
-                    continue
-                v = var_of(cond)
-                if v is not None:
-                    sw_tag[bb] = (v, {lab: {"true" if mean else "false"} for (t, lab, mean) in si["edges"] if isinstance(mean, bool)})
-                    continue
                 if cond[0] == "call" and len(cond[2]) == 2 and cond[1].fn.split("::")[-1] in ("eq", "ne") and "PartialEq" in cond[1].fn:
                     # `outcome == Outcome::Conflict` on an enum-valued local whose variant is known from its definitions
                     done_ = False
-                    for (a_, k_) in ((cond[2][0], cond[2][1]), (cond[2][1], cond[2][0])):
+                    raw_args = cond[1].args if len(cond[1].args) == 2 else [None, None]
+                    for (a_, k_, ra_) in ((cond[2][0], cond[2][1], raw_args[0]), (cond[2][1], cond[2][0], raw_args[1])):
                         v = var_of(a_)
+                        if v is None and ra_ is not None:
+                            v = self._raw_ref_var(ra_, cv)
                         kk = k_
                         n_ = 0
                         while kk[0] in ("ref", "deref") and n_ < 6:
@@ -563,6 +587,18 @@ class Body:
                         break
                     if done_:
                         continue
+                is_fn = cond[0] == "call" and cond[2] and cond[1].fn.split("::")[-1] in self._IS_FNS and var_of(cond[2][0]) is not None
+                rv_ = self._raw_bool_var(self.blocks[bb]["term"]["d"], cv) if not is_fn and var_of(cond) is None else None
+                arms = self.blocks[bb]["term"]["arms"]
+                if rv_ is not None and len(arms) == 1 and arms[0][0] in ("0", "1"):
+                    (v, parity) = rv_
+                    lab_val = {arms[0][0]: arms[0][0] == "1", "otherwise": arms[0][0] == "0"}
+                    sw_tag[bb] = (v, {lab: {"true" if (val != parity) else "false"} for lab, val in lab_val.items()})
+                    continue
+                v = var_of(cond)
+                if v is not None:
+                    sw_tag[bb] = (v, {lab: {"true" if mean else "false"} for (t, lab, mean) in si["edges"] if isinstance(mean, bool)})
+                    continue
                 if cond[0] == "call" and cond[2]:
                     name = cond[1].fn.split("::")[-1]
                     if name in self._IS_FNS:
@@ -628,8 +664,13 @@ class Body:
             grew = False
             for bb, ups in defs_tag.items():
                 for (l, k) in ups:
-                    if l in need and k is not None and k[0] == "copy" and k[1] not in need:
-                        need.add(k[1])
+                    src_ = None
+                    if k is not None and k[0] in ("copy", "branch", "payload"):
+                        src_ = k[1]
+                    elif k is not None and k[0] == "wrap":
+                        src_ = k[2]
+                    if l in need and src_ is not None and src_ not in need:
+                        need.add(src_)
                         grew = True
         defs_tag = {bb: [(l, k) for (l, k) in ups if l in need] for bb, ups in defs_tag.items()}
         defs_tag = {bb: ups for bb, ups in defs_tag.items() if ups}
@@ -670,6 +711,23 @@ class Body:
                 tag = k[1]
             elif k is not None and k[0] == "copy":
                 tag = known.get(k[1])
+            elif k is not None and k[0] == "wrap":
+                inner = known.get(k[2])
+                tag = k[1] + ((":" + inner) if inner else "")
+            elif k is not None and k[0] == "branch":
+                t0 = known.get(k[1])
+                if t0:
+                    head, _, rest = t0.partition(":")
+                    if head in Body._POS:
+                        tag = "Continue" + ((":" + rest) if rest else "")
+                    elif head in Body._NEG:
+                        tag = "Break"
+            elif k is not None and k[0] == "payload":
+                t0 = known.get(k[1])
+                if t0:
+                    head, _, rest = t0.partition(":")
+                    if head == k[2] and rest:
+                        tag = rest
             if tag is not None:
                 st = st + ((var, tag),)
         return st[-Body.MAX_CORR_VARS:]
@@ -694,7 +752,7 @@ class Body:
                 nstate = state
                 if b in sw_tag and sw_tag[b][0] in known:
                     want = sw_tag[b][1].get(lab)
-                    if want is not None and known[sw_tag[b][0]] not in want:
+                    if want is not None and known[sw_tag[b][0]].split(":")[0] not in want:
                         continue
                 elif b in sw_tag and sw_tag[b][0] in self._cv_learn:
                     want = sw_tag[b][1].get(lab)
